@@ -10,21 +10,21 @@ CLAIMED = {
  "C03": {
   "level": "exploration",
   "technique": SIM + "metamorphic placement of one pure call across session histories, call depths, frame-width padding, loop/generator contexts and after failures; real-vs-real equality",
-  "text": "The same side-effect-free call is evaluated in up to 10 placements of one session (top level, twice per statement, under d padded frames, in loop bodies, as a yielded value, after deep recursion, wide calls, loops, failed statements and injected aborts); all renderings must be equal. Needs no model. Sampling, not proof.",
+  "text": "The same side-effect-free call is evaluated in up to 10 placements of one session (top level, twice per statement, under d padded frames, in loop bodies, as a yielded value, after deep recursion, wide calls, loops, failed statements and injected aborts); probe functions include ones whose locals are assigned only on paths not taken (they must read as nil wherever the frame lands); all renderings must be equal. Needs no model. Sampling, not proof.",
   "ref": "6.C03",
   "note": "Generated functions never reassign a captured variable after capture (known finding K3) and never return closures inside arrays (known finding K4); those two shapes are recorded in known_findings.jsonl and replayed on every run.",
  },
  "C08": {
   "level": "exploration",
   "technique": SIM + "crash/recovery: fault sequences (parse errors, runtime errors of every class at depth / in loops / in generators, injected aborts) with a failure-free twin session as oracle",
-  "text": "Twin sessions over one generated history: A sees failing statements (unparsable text, runtime errors at top level, at call depth d, in loop iteration k, inside generators and generators of generators, aborts injected at the k-th fallible instruction), B sees only their completed global prefix. Every later statement must agree in value, output and error class, and the machine must be at rest after every failure. Sampling, not proof.",
+  "text": "Twin sessions over one generated history: A sees failing statements (unparsable text, runtime errors at top level, at call depth d, in loop iteration k, inside generators and generators of generators, aborts injected at the k-th fallible instruction), B sees only their completed global prefix. Every later statement must agree in value, output and error class, and the machine must be at rest after every failure. Completed prefixes also bind functions, generators and arrays that later probe statements use after new code has been compiled. One run in three replays the history through the real node.Loop + FReader + processInput on a real file, with the failing statements and with their completed prefixes; every non-failing step must print the same in both streams and no step may be lost. Runs that kill or stall their process are re-executed alone in a child process and reported (fatal-crash / hang). Sampling, not proof.",
   "ref": "6.C08",
   "note": "Error reports are cut from compared output (they quote instruction indices that legitimately differ; C19 checks them). Injected aborts only at opcodes that can fail from operand data.",
  },
  "C09": {
   "level": "exploration",
   "technique": SIM + "seeded session histories with injected aborts, conservation invariant after every statement, n-vs-2n twin sessions for the growth clause",
-  "text": "Seeded search over session histories (every statement form in discarded/used/returning position, loops, generators, cancellations by return, data-driven errors and injected aborts at the k-th fallible instruction): after every statement sp, frame depth, closure depth, live contexts and main ip must be at rest; twin sessions running the same stateless loop body n and 2n times must reach the same maximum sp and stack length. Sampling, not proof.",
+  "text": "Seeded search over session histories (every statement form in discarded/used/returning position, loops, generators, cancellations by return, data-driven errors and injected aborts at the k-th fallible instruction): after every statement sp, frame depth, closure depth, live contexts and main ip must be at rest; twin sessions running the same stateless loop body n and 2n times must reach the same maximum sp and stack length, with the loop as function tail, conditional-branch tail, discarded, top-level statement, inside a generator, nested, and the body ending in each statement form (arithmetic, call, array literal, if with and without else, string, index, slice, closure, yield). Sampling, not proof.",
   "ref": "6.C09",
   "note": "Trusts the verif-tagged accessors and the step hook; the driver re-enacts processInput (checked against node.Loop by C16); programs stay inside the fragment of DESIGN.md 5.3.",
  },
@@ -62,7 +62,7 @@ CLAIMED.update({
  "C15": {
   "level": "fault_enumeration",
   "technique": SIM + "capacity exhaustion as the injected fault: data segment filled to each side of the 2^15 and 2^16 boundaries before ordinary statements (table enumerated completely), large-body programs, static operand-decode check plus unfilled twin session",
-  "text": "Only the size-limit clause is claimed. The data segment is filled to B+delta (B in {2^15,2^16}, delta -14..+3) before each of 14 statement kinds in both flavours (1008 cases, enumerated completely in both tiers) plus functions with 2^15+-2 locals and bodies around 2^15 instructions; seeded runs place the fill inside generated sessions. A statement must be refused at compile time or decode to in-range operands and behave exactly like the unfilled twin.",
+  "text": "Only the size-limit clause is claimed. The data segment is filled to B+delta (B in {2^15,2^16}, delta -14..+3) before each of 14 statement kinds in both flavours (1008 cases, enumerated completely in both tiers) plus functions with 2^15+-2 locals, large bodies, and a jump-distance table (14 templates whose statement is made exactly limit+d instructions long, limit in {2^15-1, 2^16-1}, d in -3..+9, closed-form expected values; enumerated completely in thorough, 9 pairs per template in quick); seeded runs place the fill inside generated sessions. A statement must be refused at compile time or decode to in-range operands and behave exactly like the unfilled twin.",
   "ref": "6.C15",
   "note": "A compile-time panic counts as refusal. The fill appends nil entries to the DS slice the caller owns (what a long session does). The encode/decode round trip over all opcode x kind x address is a pure function and is not claimed.",
  },
@@ -76,7 +76,7 @@ CLAIMED.update({
  "C19": {
   "level": "fault_enumeration",
   "technique": SIM + "fault sites enumerated (error class x site x run-time choice by simulated stdin x flavour) plus seeded generated sessions; captured report parsed and compared with the reference model's failing operation, operands and per-coroutine call stacks",
-  "text": "Every error class at every site kind (top level, call depth 1..6, parameters holding functions, closures, reassigned parameters, loop bodies, generators, generators of generators, zip members, built-ins), with the failing dynamic point fixed in the text or chosen at run time by stdin, in both flavours: the table is run completely in both tiers; seeded runs add generated sessions. The report's class, marked instruction (must be the last instruction dispatched), opcode family, operand values and the frames of the failing context and all its ancestors must match the model.",
+  "text": "Every error class at every site kind (top level, call depth 1..6, parameters holding functions, closures, reassigned parameters, loop bodies, generators, generators of generators, zip members, built-ins, and the same sites after other loops of the same statement have come and gone: recycled contexts, abandoned loops, deep recursion, wide frames), with the failing dynamic point fixed in the text or chosen at run time by stdin, in both flavours: the table is run completely in both tiers; seeded runs add generated sessions. The report's class, marked instruction (must be the last instruction dispatched), opcode family, operand values and the frames of the failing context and all its ancestors must match the model.",
   "ref": "6.C19",
   "note": "Temp-register opcodes print only the operands they fetch (printed operands must be a suffix of the model's). Crash shapes that never reach a report (DESIGN.md 5.3) are out of reach.",
  },
